@@ -525,6 +525,7 @@ def run(m, tier):
     results.append(optional_rules.optional_rule(m, "C06.R11"))
     from rules import guard_rules
     results.append(guard_rules.param_index_rule(m, "C06.R12"))
+    results.append(guard_rules.assert_on_input_rule(m, "C06.R13"))
     expl = ("Decides the structural clauses of C06: (R1) who-may-call -- no call path from the parse/print/read entry points to a "
             "process-terminating call (resolved call graph incl. grammar dispatch); (R2) every fparser exception class raised as a "
             "signal is converted at Program.__new__; (R3) every explicit raise of a non-convertible class is discharged by a guard "
